@@ -3,6 +3,7 @@
 use crate::engine::{Ctx, SubCheck};
 
 pub mod c01;
+pub mod c05;
 
 pub struct PropDef {
     pub id: &'static str,
@@ -13,11 +14,12 @@ pub struct PropDef {
     pub subs: Vec<Box<dyn SubCheck>>,
 }
 
-pub const ALL: [&str; 1] = ["C01"];
+pub const ALL: [&str; 2] = ["C01", "C05"];
 
 pub fn get(id: &str, ctx: &Ctx) -> Option<PropDef> {
     match id {
         "C01" => Some(c01::def(ctx)),
+        "C05" => Some(c05::def(ctx)),
         _ => None,
     }
 }
